@@ -83,7 +83,7 @@ class C18(ProgProp):
     def gen(self, rng, tier, k):
         kind = ["tb", "probe", "filter"][k % 3]
         if kind == "probe":
-            cfg = gen.swarm(rng, self.cfg)
+            cfg = gen.swarm(rng, self.base_cfg(tier))
             if cfg["p_na"] > 0:
                 cfg["p_sync"] = 0.0
             spec = gen.gen_program(rng, cfg)
